@@ -323,6 +323,13 @@ func driverMain() int {
 	var real []FoundViolation
 	inconclusive := 0
 	for _, v := range viols {
+		if v.Rule == "harness" {
+			// the harness could not do its job on this tree (e.g. a field the white-box dump
+			// reads is gone): a harness error, never a violation
+			fmt.Fprintf(os.Stderr, "HARNESS-ERROR: %s: %s\n", v.Sig, v.Detail)
+			harnessErr = true
+			continue
+		}
 		if v.Repro < 5 {
 			// did not reproduce identically from its own replay: never reported as a violation
 			inconclusive++
